@@ -137,6 +137,14 @@ def header(r, token_spec=None, token=None, near=None):
     return gens.frame(r.choice([1, 1, 1, 0, 2, 5, 7]), text.encode("latin-1"), True), fields
 
 
+def oracles_equal_mod_now(a, b):
+    from harness import oracles
+    try:
+        return oracles.json_equal_mod_now(json.dumps(a, default=str), json.dumps(b, default=str))
+    except Exception:
+        return False
+
+
 def run(ctx):
     r = ctx.rng("C17")
     mods = real_modules()
@@ -271,6 +279,60 @@ def run(ctx):
             # discovery order, which the model takes from the generated table)
             s2.disagree(case, "ok " + got, ml)
     streams.append(s2)
+
+    # the schema set is a function of the first frame of the message that is rendered: a Wrapper whose frame list is
+    # filled / replaced after it was created (a reused object, a caller-owned list) renders like a new one
+    rw = Stream("reused-wrapper")
+    from harness import schemaio
+    by_mod = {}
+    for module, letter, spec in schemaio.record_specs():
+        by_mod.setdefault(module, {})[letter] = spec
+    cand = [m for m in toks if hub_header(m) is not None] + ["generic"]
+    for _ in range(300 if ctx.thorough else 40):
+        m1, m2 = r.choice(cand), r.choice(cand)
+
+        def msg_of(m):
+            fr = [gens.frame(1, hub_header(m if m != "generic" else None).encode("latin-1"), True)]
+            sp = by_mod.get(m, {})
+            for k, l in enumerate([x for x in ("P", "O", "R", "L") if x in sp]):
+                fr.append(gens.frame(2 + k, schemaio.gen_record(r, sp[l], fill=0.5)[0], True))
+            return fr
+        a, b = msg_of(m1), msg_of(m2)
+        how = r.choice(["assign-messages", "slice-assign", "extend-empty"])
+        case = {"first": m1, "then": m2, "how": how, "frames": [hexb(x) for x in b]}
+        rw.case(case, nontrivial=m1 != m2)
+        rw.count(how)
+        try:
+            fresh = wrapper.Wrapper(list(b)).to_dict()
+        except Exception as e:  # noqa
+            fresh = "raises " + type(e).__name__
+        try:
+            if how == "assign-messages":
+                w = wrapper.Wrapper(list(a))
+                w.to_dict()
+                w.messages = list(b)
+            elif how == "slice-assign":
+                lst = list(a)
+                w = wrapper.Wrapper(lst)
+                lst[:] = b
+            else:
+                lst = [a[0]]
+                w = wrapper.Wrapper(lst)
+                lst[:] = []
+                lst.extend(b)
+            got = w.to_dict() if w.messages == b else None
+        except Exception as e:  # noqa
+            got = "raises " + type(e).__name__
+        if got is None:
+            continue                       # (the wrapper keeps its own copy of the list: nothing to compare)
+
+        def strip(d):
+            return json.loads(json.dumps(d, default=str)) if not isinstance(d, str) else d
+        if strip(got) != strip(fresh) and not oracles_equal_mod_now(got, fresh):
+            rw.fail(dict(case, reused=repr(got)[:300], fresh=repr(fresh)[:300]),
+                    "a message of %s rendered by a Wrapper that held a message of %s before is not what a new Wrapper renders"
+                    % (m2, m1), "reused-wrapper/differs")
+    streams.append(rw)
     streams.append(import_history_stream(ctx))
     streams.append(later_frames_stream(ctx))
     return streams
